@@ -34,7 +34,9 @@ def table_lines(ctx, quick):
         for pc, rook in ((3, True), (4, False)):
             subs = list(subsets(inner_mask(sq, rook)))
             if quick and len(subs) > 160:
-                subs = r.sample(subs, 160)       # thorough enumerates all 107 648 entries
+                m = inner_mask(sq, rook)
+                edge = [0, m] + [m & ~(1 << b) for b in range(64) if m >> b & 1] + [1 << b for b in range(64) if m >> b & 1]
+                subs = list(dict.fromkeys(edge + r.sample(subs, 160)))       # thorough enumerates all 107 648 entries
             for occ in subs:
                 lines.append(f"chess atk {pc} {sq} {hex(occ)}")
             for _ in range(4):                   # full random occupancies (outside the inner mask too)
